@@ -24,6 +24,8 @@ DESIGN = dict(
     ConvertInPlace=False,   # any.go converts the items of a slice into a new []any
     HideRestore=False,      # oneof.go hands the member a clone without the discriminator
     EarlyExitWalk=False,    # object.go checks given fields and required fields in two complete loops
+    LastKeyDecides=False,   # enum.go returns at the first value whose display names differ
+    MemoRootUnsync=False,   # scope.go RootObject looks the root up on every call (no memo)
     NoStepMutex=False,      # step.go 200-223 holds initializerMutex
     EnumEarlyReturn=False,  # enum.go: repaired (return nil -> continue)
 )
@@ -37,7 +39,8 @@ CONCRETE = {
     ("units0", "global"): ["int_chars", "int_pct", "float_pct"],
     ("units0", "fresh"): ["int_custom0"],
     ("units0", "rebuilt"): ["int_chars", "int_pct", "float_pct", "int_custom0"],
-    ("objmap", "fresh"): ["objmap"], ("objmap", "rebuilt"): ["objmap", "plugin_input"],
+    ("objmap", "fresh"): ["objmap"], ("objmap", "rebuilt"): ["objmap", "plugin_input"], ("objmap", "derived"): ["objmap"],
+    ("steps", "derived"): ["steps"],
     ("objstruct", "fresh"): ["objstruct"], ("objstruct", "rebuilt"): ["objstruct"],
     ("objreq", "fresh"): ["objreq"], ("objreq", "rebuilt"): ["objreq"],
     ("anylist", "fresh"): ["any_top", "any_prop"], ("anylist", "rebuilt"): ["any_top", "any_prop"],
@@ -46,7 +49,8 @@ CONCRETE = {
     ("compat2", "fresh"): ["compat2"], ("compat2", "rebuilt"): ["compat2"],
     ("objnest", "fresh"): ["objnest"], ("objnest", "rebuilt"): ["objnest"],
     ("objdep", "fresh"): ["objdep"], ("objdep", "rebuilt"): ["objdep"],
-    ("mapcoll", "fresh"): ["mapcoll", "anycoll"], ("mapcoll", "rebuilt"): ["mapcoll", "anycoll"],
+    ("mapcoll", "fresh"): ["mapcoll", "anycoll", "mapcoll_units", "mapcoll_strkey"],
+    ("mapcoll", "rebuilt"): ["mapcoll", "anycoll", "mapcoll_units", "mapcoll_strkey"],
     ("oneof", "fresh"): ["oneof_map", "oneof_struct"], ("oneof", "rebuilt"): ["oneof_map", "oneof_struct"],
     ("enum", "fresh"): ["enum_str", "enum_int"], ("enum", "rebuilt"): ["enum_str", "enum_int"],
     ("steps", "fresh"): ["steps"],
@@ -65,6 +69,8 @@ def arg_class(tok):
         return "limits_given"
     return {"nrand": "limits_left_out", "str_over": "out_of_range", "list_over": "out_of_range",
             "list_mixed": "list_items", "list_bad": "list_items", "map_list": "list_items",
+            "renamed": "display_name_differs", "unnamed": "display_name_differs", "scope_renamed": "display_name_differs",
+            "typed_collide": "collide",
             "data_partial": "omits_required", "props_partial": "omits_required", "schema_partial": "omits_required"}.get(tok, tok)
 
 
@@ -144,6 +150,40 @@ def run_driver(ctx, binary, cases, tag, jobs=None, timeout=1700, env=None):
     results = common.read_ndjson(out)
     if len(results) != len(cases):
         raise common.Infra("driver returned %d results for %d cases" % (len(results), len(cases)))
+    return results
+
+
+def run_driver_chunked(ctx, binary, cases, tag, cost, jobs, env=None, chunk_cost=900.0):
+    """Run the cases in chunks of about chunk_cost estimated CPU-seconds, each driver invocation with a timeout
+    proportional to its chunk (generous: the estimate is for an idle machine).  A chunk that times out is re-run
+    once, alone, with twice the bound, before Infra is raised - one slow chunk under load does not lose the run."""
+    chunks, cur, acc = [], [], 0.0
+    for c in cases:
+        cur.append(c)
+        acc += cost(c)
+        if acc >= chunk_cost:
+            chunks.append((cur, acc))
+            cur, acc = [], 0.0
+    if cur:
+        chunks.append((cur, acc))
+    results, log = [], []
+    import time
+    for i, (chunk, est) in enumerate(chunks):
+        bound = int(120 + 6.0 * est / max(jobs, 1) + 0.5 * len(chunk))
+        t = time.time()
+        try:
+            res = run_driver(ctx, binary, chunk, "%s-%d" % (tag, i), jobs=jobs, timeout=bound, env=env)
+            retried = False
+        except common.Infra as e:
+            if "timeout" not in str(e):
+                raise
+            ctx.log("chunk %d/%d (%d cases) exceeded %ds - re-running it once, alone" % (i + 1, len(chunks), len(chunk), bound))
+            res = run_driver(ctx, binary, chunk, "%s-%d-retry" % (tag, i), jobs=jobs, timeout=2 * bound, env=env)
+            retried = True
+        log.append(dict(cases=len(chunk), estimated_cost_s=round(est), bound_s=bound, wall_s=round(time.time() - t, 1), retried=retried))
+        results.extend(res)
+    ctx.extra["driver_chunks"] = log
+    ctx.log("race driver: %d chunks, wall %s s" % (len(chunks), [c["wall_s"] for c in log]))
     return results
 
 
